@@ -346,6 +346,38 @@ def r7b(ctx):
         ok = bool(terms) and not foreign
         ctx.ob("R7", "MatchJSON.replacement in %s" % f.id, ok, "= Diff.replacement" if ok else
                "the `replacement` printed by --json is not Diff.replacement as it is (passes through %s)" % sorted(set(foreign)), where=f.loc(st[3]))
+    # MatchJSON.replacement_offsets = Diff.range (byte offsets, like byteOffset and like what -U applies)
+    def roff_term(g, o):
+        return o.kind in ("param", "local") and "range" in field_path(o.proj) and "Diff" in " ".join(map(str, o.proj))
+    for f in prog.fns.values():
+        if f.crate != "ast_grep":
+            continue
+        for bi in sorted(f.live_blocks):
+            for st in f.blocks[bi]["s"]:
+                if st[0] != "A" or st[2][0] not in ("agg", "use"):
+                    continue
+                opsl = None
+                if st[1][1] and any(str(p_).startswith(".replacement_offsets|ast_grep::print::json_print::MatchJSON") for p_ in st[1][1]):
+                    opsl = st[2][2] if st[2][0] == "agg" else [st[2][1]]
+                    if st[2][0] == "agg" and st[2][1].get("variant") == "None":
+                        continue
+                elif st[2][0] == "agg" and st[2][1].get("adt") == "ast_grep::print::json_print::MatchJSON" and "replacement_offsets" in st[2][1].get("fields", []) and not f.impl_trait:
+                    op = dict(zip(st[2][1]["fields"], st[2][2]))["replacement_offsets"]
+                    if op[0] == "k" or all(o.kind == "agg" and o.ref[2][1].get("variant") == "None" for o in f.trace_operand(op)):
+                        continue
+                    opsl = [op]
+                if opsl is None:
+                    continue
+                n += 1
+                terms, foreign = [], []
+                for op in opsl:
+                    t_, f_ = identity_flow(prog, f, op, roff_term)
+                    terms += t_
+                    foreign += f_
+                ok = bool(terms) and not foreign
+                ctx.ob("R7", "MatchJSON.replacement_offsets in %s" % f.id, ok, "= Diff.range" if ok else
+                       "the offsets printed by --json are not Diff.range as it is (computed through %s): the announced byte range differs from what -U, sg test, the library and the LSP use" % sorted(set(foreign)),
+                       where=f.loc(st[3]))
     # lsp TextEdit new_text
     for c in prog.who_calls(r"lsp_types::TextEdit::new$"):
         f = c.fn
